@@ -416,6 +416,7 @@ func genTables(a *An) {
 	genReturns(a)
 	genBigOps(a)
 	genCalls(a)
+	genRandAtomic(a)
 }
 
 // ---- events ---------------------------------------------------------------------------------------------------
